@@ -620,14 +620,17 @@ def corr_parse(ck):
         classes[rp[:2] if rp.startswith('!') else 'ok'] = classes.get(rp[:2] if rp.startswith('!') else 'ok', 0) + 1
         if ra.startswith('!') and ra not in ('!A', '!S', '!V'):
             bad_inputs.append(body)
-    for pre in prefixes:
+    for k_, pre in enumerate(prefixes):
         ins = [pre + c for c in BODY_ALPHA]
         rp = [real_parse(x) for x in ins]
         ra = [real_atom(x)[0] for x in ins]
         for x, p_, a_ in zip(ins, rp, ra):
             note(x, p_, a_)
         bp.add(f'sw_parse {cstr(pre)} al {cstr(chr(10).join(rp))}', (pre, rp))
-        ba.add(f'sw_atom {cstr(pre)} al {cstr(chr(10).join(ra))}', (pre, ra))
+        # quick: the atom construction is evaluated in Coq for every body of length <= 2 and a third of the longer prefixes
+        # (the real smarts() runs on all of them: exception classes are always checked)
+        if ck.tier == 'thorough' or len(pre) < 2 or (k_ + ck.seed) % 3 == 0:
+            ba.add(f'sw_atom {cstr(pre)} al {cstr(chr(10).join(ra))}', (pre, ra))
     bodies = gen_bodies(ck, rng, 350 if ck.tier == 'quick' else 7000)
     for i in range(0, len(bodies), 25):
         part = bodies[i:i + 25]
@@ -1465,7 +1468,7 @@ def stereo_smarts(rng, n):
 
 def corr_full(ck):
     rng = random.Random(f'{ck.seed}:c08-full')
-    fixed = ['', 'C/C=C(/C)C(/C)=C/C', 'F/C(=C/F)=C/F', 'F/C(/Cl)=C/F', 'FC(/Cl)=C/F', 'F/C=C(/Cl)\\F', 'F/C=C/F', 'F/C=C\\F', 'F\\C=C\\F', 'F\\C=C/F', 'FC=CF', 'C/C=,#C/C', 'C/C=,#C\\C', 'C/C!-C/C', 'C/C!-C\\C', 'C/C=;@C/C', 'C/C=;!@C\\C',
+    fixed = ['', 'F/C=1=1', 'F/C1=1', 'F/C=,#1=,#1', 'C/C=C(/C)C(/C)=C/C', 'F/C(=C/F)=C/F', 'C/C=C/C-C/C=C/C', 'F/C(/Cl)=C/F', 'FC(/Cl)=C/F', 'F/C=C(/Cl)\\F', 'F/C=C/F', 'F/C=C\\F', 'F\\C=C\\F', 'F\\C=C/F', 'FC=CF', 'C/C=,#C/C', 'C/C=,#C\\C', 'C/C!-C/C', 'C/C!-C\\C', 'C/C=;@C/C', 'C/C=;!@C\\C',
              'C/C=C/C=C/C', 'C/C=C/C-C/C=C/C', 'F/C=C/1.F1', 'C1/C=C\\CCCCC1', '[C@](F)(Cl)(Br)I', '[C@@;D3](F)Cl', '[A@]F', '[C,N@]F', '[M@]', 'C/C', 'C/C=C',
              '[C:1][C:1]', '[C:1][N:2]', 'C11', 'C1C1', 'C=1C=1', 'C%12CC%12', 'c1ccccc1', 'C(C)(C)C', 'C.C', '[C;M]C', 'C-,=C', 'C~C', 'C!-;@C', '[C+-]', 'C!', '(C)C']
     texts = fixed + stereo_smarts(rng, 250 if ck.tier == 'quick' else 3000) + gen_smarts(rng, 150 if ck.tier == 'quick' else 2000)
